@@ -240,22 +240,11 @@ def rule_result_slots(ctx, rid):
     """Every non-literal node gets its own fresh result Slot per run; only exact Literal nodes stand for themselves;
     bound calls exist only for exact Call nodes; `.value` is only ever stored on Slot objects."""
     m = ctx.model
-    pf = [f for f in m.funcs.values() if f.name == "_create_bound_call_lookup_and_output_slot"]
-    if len(pf) != 1:
-        raise AnalysisError("function building the per-run slot table not found")
-    f = pf[0]
-    dcs = [n for n in f.own_nodes() if isinstance(n, ast.DictComp)]
-    keep = global_names(m, f)
-    want1 = canon(["{node: node if type(node) is Literal else Slot(None) for node in plan.graph.nodes()}"], keep)
-    ok1 = any(canon([d], keep) == want1 for d in dcs)
-    ctx.ob(rid, f"{f.short}/one-fresh-slot-per-node", ok1, loc(f),
-           "slot table: node itself for exact Literal nodes, a fresh Slot(None) for every other node" if ok1 else
-           "the per-run slot table is not `{node: node if type(node) is Literal else Slot(None) for every node}`: results are "
-           "shared between calls or between overlapping runs of one plan")
-    ok2 = any(len(d.generators) == 1 and len(d.generators[0].ifs) == 1 and canon([d.generators[0].target, d.generators[0].ifs[0]], keep) == canon(["node", "type(node) is Call"], keep)
-              and "_create_bound_call" in norm(d.value) for d in dcs)
-    ctx.ob(rid, f"{f.short}/bound-calls-for-calls-only", ok2, loc(f), "bound calls exist only for exact Call nodes" if ok2 else
-           "a non-Call node can get a bound call (its .result.value store would overwrite a Literal)")
+    from . import engine as E_
+    from . import runrules as R_
+    from .evalrules import rule_run_callback
+    rr_ = R_.discover(m, E_.discover(m))
+    rule_run_callback(ctx, rr_, rid_slots=rid)
     slot = m.one_class("Slot", "SLOT")
     n = 0
     for g in m.funcs.values():
